@@ -520,6 +520,8 @@ def drive(seed: int, n_traces: int) -> t.List[t.Dict[str, t.Any]]:
     rec = Recorder(rnd)
     scenario_textdamage(rec, rnd)
     for j in range(n_traces):
+        if C.too_many_hangs():
+            break
         role = "client" if rnd.random() < 0.5 else "server"
         u = j % 10
         if j % 5 == 4:
